@@ -13,7 +13,7 @@ BASE = dict(
     AUTHLISTS='{{}}', HANDSHAKES='{"ok"}', CAPS2='{{}}', LOGAUTH='{FALSE}', LOGGERS='{"capture"}', FALLBACK='{FALSE}',
     DEV_ImplicitDot='FALSE', DEV_NoRsetAfterDataReject='FALSE', DEV_ContinueAfterRsetFail='FALSE',
     DEV_LeakOnDialError='FALSE', DEV_QuitFailureLeavesConn='FALSE', DEV_NoDeadlineInDial='FALSE',
-    DEV_NoopBeforeDeadline='FALSE', DEV_WindowStaysOpen='FALSE')
+    DEV_NoopBeforeDeadline='FALSE', DEV_WindowStaysOpen='FALSE', DEV_FallbackInClear='FALSE')
 
 
 def cfg(**kw):
@@ -175,6 +175,14 @@ STAGES = {
             ('dialandsend-mandatory', 'Session', cfg(OP='"DialAndSend"', N='1', MAXR='1', BUDGET='1', CAPSETS='{{}}',
                 POLICIES='{"mandatory"}', STARTTLSADV='BOOLEAN', HANDSHAKES='{"ok", "untrusted"}',
                 AUTHTYPES='{"NOAUTH", "PLAIN"}', AUTHLISTS='{{"PLAIN"}}')),
+            # implicit TLS (WithSSLPort) over real TCP on a loopback address: TLS from the first byte, port fallback
+            ('implicit-tls', 'Session', cfg(OP='"Dial"', N='1', MAXR='1', BUDGET='1', CAPSETS='{{}}', CLASSES='{"refuse"}',
+                POLICIES='{"implicit"}', FALLBACK='BOOLEAN', HANDSHAKES='{"ok", "wrongname", "untrusted"}', STARTTLSADV='BOOLEAN',
+                AUTHTYPES='{"NOAUTH", "PLAIN", "LOGIN", "CRAM-MD5", "XOAUTH2", "SCRAM-SHA-256", "SCRAM-SHA-256-PLUS", "AUTODISCOVER"}',
+                AUTHLISTS='{{"PLAIN", "LOGIN"}, {"PLAIN", "LOGIN", "CRAM-MD5", "XOAUTH2", "SCRAM-SHA-1", "SCRAM-SHA-256", "SCRAM-SHA-1-PLUS", "SCRAM-SHA-256-PLUS"}}')),
+            ('implicit-tls-dialandsend', 'Session', cfg(OP='"DialAndSend"', N='1', MAXR='1', BUDGET='1', CAPSETS='{{}}', CLASSES='{"refuse", "p5"}',
+                POLICIES='{"implicit"}', FALLBACK='BOOLEAN', HANDSHAKES='{"ok", "untrusted"}',
+                AUTHTYPES='{"NOAUTH", "PLAIN", "AUTODISCOVER"}', AUTHLISTS='{{"PLAIN", "LOGIN"}}')),
         ],
         'thorough': [
             ('dial-policy-auth-matrix-b1', 'Session', cfg(OP='"Dial"', N='1', MAXR='1', BUDGET='1', CAPSETS='{{}}', CLASSES='{"t4", "p5", "garbage", "drop"}',
@@ -184,6 +192,14 @@ STAGES = {
                 AUTHLISTS='{{}, {"PLAIN", "LOGIN"}, {"LOGIN", "CRAM-MD5"}, {"PLAIN"}, {"XOAUTH2"}, {"PLAIN", "XOAUTH2", "SCRAM-SHA-256-PLUS"}, {"SCRAM-SHA-1"}, {"PLAIN", "LOGIN", "CRAM-MD5", "XOAUTH2", "SCRAM-SHA-1", "SCRAM-SHA-256", "SCRAM-SHA-1-PLUS", "SCRAM-SHA-256-PLUS"}}')),
             ('dialandsend-mandatory-b2', 'Session', cfg(OP='"DialAndSend"', N='1', MAXR='2', BUDGET='2', CAPSETS='{{}}',
                 POLICIES='{"mandatory", "opportunistic"}', STARTTLSADV='BOOLEAN', HANDSHAKES='{"ok", "untrusted", "wrongname"}',
+                AUTHTYPES='{"NOAUTH", "PLAIN", "AUTODISCOVER"}', AUTHLISTS='{{"PLAIN", "LOGIN"}}')),
+            # implicit TLS (WithSSLPort) over real TCP on a loopback address: TLS from the first byte, port fallback
+            ('implicit-tls', 'Session', cfg(OP='"Dial"', N='1', MAXR='1', BUDGET='2', CAPSETS='{{}}', CLASSES='{"refuse", "p5", "drop"}',
+                POLICIES='{"implicit"}', FALLBACK='BOOLEAN', HANDSHAKES='{"ok", "wrongname", "untrusted"}', STARTTLSADV='BOOLEAN',
+                AUTHTYPES='{"NOAUTH", "PLAIN", "LOGIN", "CRAM-MD5", "XOAUTH2", "SCRAM-SHA-256", "SCRAM-SHA-256-PLUS", "AUTODISCOVER"}',
+                AUTHLISTS='{{"PLAIN", "LOGIN"}, {"PLAIN", "LOGIN", "CRAM-MD5", "XOAUTH2", "SCRAM-SHA-1", "SCRAM-SHA-256", "SCRAM-SHA-1-PLUS", "SCRAM-SHA-256-PLUS"}}')),
+            ('implicit-tls-dialandsend', 'Session', cfg(OP='"DialAndSend"', N='1', MAXR='1', BUDGET='2', CAPSETS='{{}}', CLASSES='{"refuse", "p5"}',
+                POLICIES='{"implicit"}', FALLBACK='BOOLEAN', HANDSHAKES='{"ok", "untrusted"}',
                 AUTHTYPES='{"NOAUTH", "PLAIN", "AUTODISCOVER"}', AUTHLISTS='{{"PLAIN", "LOGIN"}}')),
         ],
     },
@@ -221,6 +237,8 @@ SENSITIVITY = {
     'C03': [('DEV_ImplicitDot', 'Session', cfg(RENDERKINDS='{"failMid"}', CAPSETS='{{}}', BUDGET='0', DEV_ImplicitDot='TRUE'), 'NoViolation')],
     'C04': [('DEV_NoRsetAfterDataReject', 'Session', cfg(CAPSETS='{{}}', BUDGET='1', DEV_NoRsetAfterDataReject='TRUE'), 'NoViolation'),
             ('DEV_ContinueAfterRsetFail', 'Session', cfg(CAPSETS='{{}}', BUDGET='2', DEV_ContinueAfterRsetFail='TRUE'), 'NoViolation')],
+    'C07': [('DEV_FallbackInClear', 'Session', cfg(OP='"Dial"', N='1', MAXR='1', BUDGET='1', CAPSETS='{{}}', CLASSES='{"refuse"}',
+                                                   POLICIES='{"implicit"}', FALLBACK='{TRUE}', DEV_FallbackInClear='TRUE'), 'NoViolation')],
     'C19': [('DEV_LeakOnDialError', 'Session', cfg(OP='"Dial"', N='1', MAXR='1', BUDGET='1', CAPSETS='{{}}', DEV_LeakOnDialError='TRUE'), 'NoViolation'),
             ('DEV_QuitFailureLeavesConn', 'Session', cfg(OP='"DialAndSend"', N='1', MAXR='1', BUDGET='1', CAPSETS='{{}}',
                                                          DEV_QuitFailureLeavesConn='TRUE'), 'NoViolation')],
@@ -529,6 +547,16 @@ def _mut_clear(evs):
     return evs
 
 
+def _mut_implicit_clear(evs):
+    if evs[0]['cfg'].get('policy') != 'implicit':
+        return None
+    i = _find(evs, lambda e: e['ev'] == 'cmd' and e['enc'])
+    if i < 0:
+        return None
+    evs[i]['enc'] = False
+    return evs
+
+
 def _mut_cred(evs):
     c = evs[0]['cfg']
     if c.get('hostkind') != 'other' or c.get('noenc'):
@@ -582,6 +610,7 @@ SELFTESTS = {
     'C16': [('secret in a log record', lambda evs: _mut_log(evs, 'leak', True, False), 'C16_NoSecretInLog'),
             ('record after authentication still redacted', lambda evs: _mut_log(evs, 'verbatim', False, True), 'C16_WindowCloses')],
     'C07': [('command in clear under mandatory TLS', lambda evs: _mut_clear(evs), 'C07_MandatoryTLS'),
+            ('command in clear under implicit TLS', lambda evs: _mut_implicit_clear(evs), 'C07_ImplicitTLS'),
             ('password in clear', lambda evs: _mut_cred(evs), 'C07_CredInTLS'),
             ('autodiscover picks PLAIN in clear', lambda evs: _mut_autodiscover(evs), 'C07_AutoDiscover'),
             ('invalid certificate accepted', lambda evs: _mut_badcert(evs), 'C07_CertValidated')],
